@@ -232,6 +232,9 @@ class ECDSAKey(PKey):
             return False
         sig = msg.get_binary()
         sigR, sigS = self._sigdecode(sig)
+        if sigR < 0 or sigS < 0:
+            # Never valid, and encode_dss_signature() raises on them
+            return False
         signature = encode_dss_signature(sigR, sigS)
 
         try:
